@@ -144,7 +144,7 @@ impl Parser {
                                 break;
                             }
 
-                            if let Ok(Some(field)) = self.parse_expr() {
+                            if let Some(field) = self.parse_expr()? {
                                 fields.push(field);
                             }
                         }
@@ -152,7 +152,7 @@ impl Parser {
                 }
                 Some(Lexem::Open) | Some(Lexem::CurlyOpen) => {
                     self.drop_lexem();
-                    if let Ok(Some(field)) = self.parse_expr() {
+                    if let Some(field) = self.parse_expr()? {
                         fields.push(field);
                     }
                 }
